@@ -534,6 +534,8 @@ def close_fragment(
     old_open: int,
     new_open: int,
     parent: Node | None,
+    open_end: int = 0,
+    on_end_spine: bool = True,
 ) -> Fragment:
     if depth < old_open:
         first = fragment.first_child
@@ -541,7 +543,15 @@ def close_fragment(
         fragment = fragment.replace_child(
             0,
             first.copy(
-                close_fragment(first.content, depth + 1, old_open, new_open, first),
+                close_fragment(
+                    first.content,
+                    depth + 1,
+                    old_open,
+                    new_open,
+                    first,
+                    open_end,
+                    on_end_spine and fragment.child_count == 1,
+                ),
             ),
         )
     if depth > new_open:
@@ -550,6 +560,11 @@ def close_fragment(
         fill_before_frag = match.fill_before(fragment)
         assert fill_before_frag is not None
         start = fill_before_frag.append(fragment)
+        if on_end_spine and open_end > depth:
+            # the last child here stays open at the end: a filler appended after
+            # it would take its place on the open side and leave it closed as it
+            # was cut; whoever closes that side completes this level
+            return start
         matched_fragment = match.match_fragment(start)
         assert matched_fragment is not None
         matched_fragment_fill_before = matched_fragment.fill_before(
@@ -558,7 +573,6 @@ def close_fragment(
         )
         assert matched_fragment_fill_before is not None
         fragment = start.append(matched_fragment_fill_before)
-
     return fragment
 
 
